@@ -75,6 +75,12 @@ class InstBundleElabPass(ElabPass):
                     new_inst.connect(portname, _bundle_ref(conn, signame))
 
             elif isinstance(conn, AnonymousBundle):
+                # The anonymous bundle must provide exactly the signals of the paired Bundle
+                names = set(conn._namespace.keys())
+                if names != set(signal_names_to_instances.keys()):
+                    msg = f"Invalid connection to `{portname}` on Instance Bundle `{instbundle.name}`: "
+                    msg += f"has members `{sorted(names)}`, requires `{sorted(signal_names_to_instances.keys())}`"
+                    self.fail(msg)
                 for signame, new_inst in signal_names_to_instances.items():
                     new_inst.connect(portname, conn.get(signame))
 
